@@ -115,7 +115,7 @@ class Instrument:
             else:
                 by = {tr.rel(p): p for p in got}
                 res = [by[o] for o in self.order if o in by] + [p for r, p in sorted(by.items()) if r not in self.order]
-            tr.enum = [tr.rel(p) for p in res]
+            tr.forced = [tr.rel(p) for p in res]
             return res
         self.patch(fp, "find_all_files", forced)
 
@@ -177,8 +177,10 @@ class Instrument:
             return deco
 
         # ---- Project.__init__ loop
-        self.patch(fp.Project, "_fortran_file",
-                   scoped(lambda s, ext, filename, *r: ("parse", tr.rel(filename)))(fp.Project.__dict__["_fortran_file"]))
+        def parse_label(s, ext, filename, *r):
+            tr.enum.append(tr.rel(filename))      # the enumeration order as Project.__init__ walks it
+            return ("parse", tr.rel(filename))
+        self.patch(fp.Project, "_fortran_file", scoped(parse_label)(fp.Project.__dict__["_fortran_file"]))
         # ---- correlate
         self.patch(fp.Project, "correlate", staged("correlate", "glue")(fp.Project.__dict__["correlate"]))
         orig_topo = tp.toposort_flatten
@@ -297,7 +299,7 @@ def traced_run(files, order, options=None):
     sets {k: [keys]}, seq [(kind,k)] (the phases in the order they were first seen), unknown [labels])"""
     with F.Work(files) as w:
         tr = Trace(w.root)
-        tr.enum = []
+        tr.enum, tr.forced = [], []
         with Instrument(tr, order):
             data, out, err = F.full_run_inprocess(w.root, options or {})
     # stable entity keys: base key + occurrence number in order of first request
@@ -320,7 +322,7 @@ def traced_run(files, order, options=None):
             segs.setdefault((ph[1], fkey), []).append(key_of[k])
         else:
             sets.setdefault(ph[1], []).append(key_of[k])
-    return {"err": err, "log": out, "enum": tr.enum, "ents": ents, "final": final, "segs": segs, "sets": sets,
+    return {"err": err, "log": out, "enum": tr.enum, "forced": tr.forced, "ents": ents, "final": final, "segs": segs, "sets": sets,
             "seq": seq, "unknown": sorted(set(unknown))}
 
 
@@ -350,44 +352,90 @@ def run_env(seed):
     return e
 
 
-def subprocess_run(files, options, seed, stale=None, keep=None, timeout=300):
-    """one `python -m ford` run in a fresh scratch directory.
-    stale: None | dict of files to put below doc/ beforehand | "same" (run the same project first with
-    another seed and leave its output there).  -> (rc, log, tree of doc/, extra trees {name: tree})"""
-    with F.Work(files) as w:
-        doc = w.root / "doc"
+class ProjectDir:
+    """one project at a FIXED absolute path (find_all_files hashes absolute paths: the enumeration order
+    depends on PYTHONHASHSEED *and* on where the project lives), run several times"""
+
+    def __init__(self, base, name, files):
+        self.root = pathlib.Path(base) / name
+        self.files = files
+        for rel, text in files.items():
+            p = self.root / rel
+            p.parent.mkdir(parents=True, exist_ok=True)
+            p.write_text(text)
+        self.doc = self.root / "doc"
+
+    def run(self, options, seed, stale=None, keep=(), timeout=300):
+        """stale: None (output directory absent) | dict rel->bytes (put there beforehand) | "same" (whatever
+        the previous run of this project left, plus one extra file).
+        -> (rc, log, tree of doc/, {name: tree} for the other directories asked for)"""
         if stale == "same":
-            F.full_run_subprocess(w.root, options, env=run_env((int(seed) + 7) % 100), timeout=timeout)
-            (doc / "zz_left_over.html").write_text("left over from an earlier run")
-        elif isinstance(stale, dict):
-            for rel, data in stale.items():
-                p = doc / rel
-                p.parent.mkdir(parents=True, exist_ok=True)
-                p.write_bytes(data if isinstance(data, bytes) else data.encode())
+            if not self.doc.exists():
+                F.full_run_subprocess(self.root, options, env=run_env((int(seed) + 7) % 1000), timeout=timeout)
+            self.doc.mkdir(exist_ok=True)
+            (self.doc / "zz_left_over.html").write_text("left over from an earlier run")
+            (self.doc / "proc").mkdir(exist_ok=True)
+            (self.doc / "proc" / "zz_gone~2.html").write_text("page of a procedure that no longer exists")
+        else:
+            shutil.rmtree(self.doc, ignore_errors=True)
+            if isinstance(stale, dict):
+                for rel, data in stale.items():
+                    if rel.endswith("/"):
+                        (self.doc / rel).mkdir(parents=True, exist_ok=True)
+                        continue
+                    p = self.doc / rel
+                    p.parent.mkdir(parents=True, exist_ok=True)
+                    p.write_bytes(data if isinstance(data, bytes) else data.encode())
+        for name in keep:
+            shutil.rmtree(self.root / name, ignore_errors=True)
         try:
-            rc, out = F.full_run_subprocess(w.root, options, env=run_env(seed), timeout=timeout)
+            rc, out = F.full_run_subprocess(self.root, options, env=run_env(seed), timeout=timeout)
         except Exception as e:  # noqa  (timeout)
             rc, out = 124, f"EXC:{type(e).__name__}"
-        extra = {name: read_tree(w.root / name) for name in (keep or [])}
-        return rc, out, read_tree(doc), extra
+        return rc, out, read_tree(self.doc), {name: read_tree(self.root / name) for name in keep}
 
 
-def enumeration_order(files, options, seed):
-    """the order in which find_all_files' set is iterated under this hash seed (measured in a subprocess)"""
+def subprocess_run(files, options, seed, stale=None, keep=(), timeout=300):
+    """one `python -m ford` run in a fresh scratch directory"""
+    with F.Work() as w:
+        return ProjectDir(w.root, "p", files).run(options, seed, stale, keep, timeout)
+
+
+def subprocess_runs(files, specs, timeout=300):
+    """several runs [(options, seed, stale)] of one project in ONE directory, sequentially"""
+    with F.Work() as w:
+        pd = ProjectDir(w.root, "p", files)
+        return [pd.run(o, s, st, timeout=timeout) for o, s, st in specs]
+
+
+def trace_project(files, order0, perms, options):
+    """baseline traced run + one traced run per permutation (worker-process entry point)"""
+    runs = [traced_run(files, order0, options)]
+    if runs[0]["err"]:
+        return runs
+    for p in perms:
+        runs.append(traced_run(files, [order0[i] for i in p], options))
+    for r in runs:
+        r.pop("log", None)
+    return runs
+
+
+def enumeration_order(root, seed):
+    """the order in which find_all_files' set is iterated for the project at [root] under this hash seed
+    (measured in a subprocess; informational)"""
     import subprocess
-    with F.Work(files) as w:
-        code = ("import sys, os, pathlib\nimport ford, ford.fortran_project as fp\n"
-                "from ford.settings import ProjectSettings\n"
-                "root = pathlib.Path(sys.argv[1])\n"
-                "st = ProjectSettings(src_dir=[root / 'src'], preprocess=False, output_dir=root / 'doc')\n"
-                "st.fpp_extensions = []\n"
-                "os.chdir(root)\n"
-                "print('\\n'.join(os.path.relpath(p, root) for p in fp.find_all_files(st)))\n")
-        e = dict(os.environ)
-        e.update(run_env(seed))
-        p = subprocess.run([sys.executable, "-c", code, str(w.root)], env=e, stdout=subprocess.PIPE,
-                           stderr=subprocess.STDOUT, text=True, timeout=120)
-        return [l for l in p.stdout.splitlines() if l.strip()] if p.returncode == 0 else None
+    code = ("import sys, os, pathlib\nimport ford, ford.fortran_project as fp\n"
+            "from ford.settings import ProjectSettings\n"
+            "root = pathlib.Path(sys.argv[1])\n"
+            "st = ProjectSettings(src_dir=[root / 'src'], preprocess=False, output_dir=root / 'doc')\n"
+            "st.fpp_extensions = []\n"
+            "os.chdir(root)\n"
+            "print('\\n'.join(os.path.relpath(p, root) for p in fp.find_all_files(st)))\n")
+    e = dict(os.environ)
+    e.update(run_env(seed))
+    p = subprocess.run([sys.executable, "-c", code, str(root)], env=e, stdout=subprocess.PIPE,
+                       stderr=subprocess.STDOUT, text=True, timeout=120)
+    return [l for l in p.stdout.splitlines() if l.strip()] if p.returncode == 0 else None
 
 
 # ----------------------------------------------------------------------------- classification of differences
@@ -404,16 +452,18 @@ def _lines(b):
         return None
 
 
-def canon_anchors(tree):
-    """numbering-insensitive form: '~N' dropped from paths and contents, lines of every file sorted,
-    files as a multiset"""
+def strip_numbers(tree):
+    """'~N' dropped from paths and contents"""
+    tb = re.compile(rb"~\d+")
+    return [(TILDE.sub("", p), tb.sub(b"", d)) for p, d in tree]
+
+
+def sort_lines(items):
+    """lines of every text file sorted; files as a sorted multiset"""
     out = []
-    for path, data in tree.items():
+    for path, data in items:
         ls = _lines(data)
-        if ls is None:
-            out.append((TILDE.sub("", path), data))
-        else:
-            out.append((TILDE.sub("", path), "\n".join(sorted(TILDE.sub("", l) for l in ls)).encode()))
+        out.append((path, data if ls is None else "\n".join(sorted(ls)).encode()))
     return sorted(out)
 
 
@@ -434,12 +484,17 @@ def canon_uses(data):
     return "\n".join(out).encode()
 
 
-def canon_search_db(data):
+def canon_search_db(data, sort_pages, sort_words):
     try:
         txt = data.decode("utf8")
         pre, js = txt.split("=", 1)
         pages = json.loads(js.strip().rstrip(";"))["pages"]
-        return (pre + json.dumps(sorted(pages, key=lambda p: json.dumps(p, sort_keys=True)))).encode()
+        if sort_words:
+            for pg in pages:
+                pg["text"] = " ".join(sorted(str(pg.get("text", "")).split()))
+        if sort_pages:
+            pages = sorted(pages, key=lambda p: json.dumps(p, sort_keys=True))
+        return (pre + json.dumps(pages, sort_keys=True)).encode()
     except Exception:  # noqa
         return data
 
@@ -460,19 +515,28 @@ def canon_graph(data):
         return data
 
 
+SEARCH_DB = "search/search_database.json"
+
+
 def apply_canon(tree, kinds):
-    t = dict(tree)
-    if "file-order-search-db" in kinds and "search/search_database.json" in t:
-        t["search/search_database.json"] = canon_search_db(t["search/search_database.json"])
-    if "file-order-modules-json" in kinds and "modules.json" in t:
-        t["modules.json"] = canon_modules_json(t["modules.json"])
-    if "uses-set-order" in kinds:
-        t = {p: (canon_uses(d) if p.endswith(".html") else d) for p, d in t.items()}
-    if "inheritedby-children-order" in kinds:
-        t = {p: (canon_graph(d) if p.endswith(".html") else d) for p, d in t.items()}
-    if "file-order-anchors" in kinds or "toposort-id-order" in kinds:
-        return canon_anchors(t)
-    return sorted(t.items())
+    """the tree with exactly the freedom the given findings allow removed"""
+    numbering = "file-order-anchors" in kinds or "toposort-id-order" in kinds
+    items = sorted(tree.items())
+    if numbering:
+        items = strip_numbers(items)
+    out = []
+    for p, d in items:
+        if p == SEARCH_DB and ("file-order-search-db" in kinds or "uses-set-order" in kinds or numbering):
+            d = canon_search_db(d, "file-order-search-db" in kinds or numbering, "uses-set-order" in kinds)
+        if p == "modules.json" and ("file-order-modules-json" in kinds or numbering):
+            d = canon_modules_json(d)
+        if p.endswith(".html"):
+            if "uses-set-order" in kinds:
+                d = canon_uses(d)
+            if "inheritedby-children-order" in kinds:
+                d = canon_graph(d)
+        out.append((p, d))
+    return sort_lines(out) if numbering else sorted(out)
 
 
 def first_difference(a, b):
